@@ -24,6 +24,8 @@ type OblResult struct {
 	Desc      string
 	Detail    string // solver output / reason
 	Model     string
+	CrossChecked int // instances re-checked (unsat) by a second solver
+	Disagree  string
 	Query     string // path of an SMT file reproducing the failure
 }
 
@@ -34,6 +36,8 @@ type instance struct {
 	by   string
 	ms   int64
 	out  string
+	cross string
+	disagree string
 }
 
 type SolveOpts struct {
@@ -43,6 +47,7 @@ type SolveOpts struct {
 	Tags      map[string]bool // only obligations carrying one of these tags (nil = all)
 	KeepFiles bool
 	Select    func(o *Obl) bool // overrides Tags when set
+	CrossCheck bool // thorough: re-check discharged instances on a second solver; sat there is a disagreement
 }
 
 var solverCmds = map[string][]string{
@@ -254,6 +259,30 @@ func solveFunc(fr *FuncResult, opts SolveOpts) []*OblResult {
 					}
 				}
 			}
+			// thorough tier: second opinion on discharged instances
+			if opts.CrossCheck {
+				for k, in := range j.insts {
+					if in.res != "unsat" || in.by == "static" || in.by == "trivial" {
+						continue
+					}
+					script := singleQuery(decls, in)
+					other := "cvc5"
+					ls, _, _ := runSolver(other, script, 8000, 1, opts.WorkDir, fmt.Sprintf("%s.x%d", tag, k))
+					if len(ls) > 0 && ls[0] == "unsat" {
+						in.cross = other
+					} else if len(ls) > 0 && ls[0] == "sat" {
+						in.disagree = other + " answers sat where " + in.by + " answered unsat"
+					} else {
+						// cvc5 undecided: ask z3 4.8.12
+						ls2, _, _ := runSolver("z3", script, 8000, 1, opts.WorkDir, fmt.Sprintf("%s.y%d", tag, k))
+						if len(ls2) > 0 && ls2[0] == "unsat" {
+							in.cross = "z3"
+						} else if len(ls2) > 0 && ls2[0] == "sat" {
+							in.disagree = "z3 4.8.12 answers sat where " + in.by + " answered unsat"
+						}
+					}
+				}
+			}
 			if !opts.KeepFiles {
 				files, _ := filepath.Glob(filepath.Join(opts.WorkDir, tag+".*"))
 				for _, f := range files {
@@ -277,6 +306,12 @@ func solveFunc(fr *FuncResult, opts SolveOpts) []*OblResult {
 		r.TimeMS += in.ms
 		if r.Solver == "" || in.by != "static" && in.by != "trivial" {
 			r.Solver = in.by
+		}
+		if in.cross != "" {
+			r.CrossChecked++
+		}
+		if in.disagree != "" && r.Disagree == "" {
+			r.Disagree = in.disagree
 		}
 		switch in.res {
 		case "unsat":
@@ -387,4 +422,58 @@ func solveCovers(fr *FuncResult, opts SolveOpts) map[string]string {
 	}
 	wg.Wait()
 	return out
+}
+
+// solveCanary (thorough tier): with the full hypotheses of each return path, `false` must not be provable
+// on every path — otherwise the contract (requires, callee contracts, trusted clauses) is contradictory
+// and every obligation of the function was discharged vacuously. Returns "consistent", "not-refuted"
+// or "contradictory".
+func solveCanary(fr *FuncResult, opts SolveOpts) string {
+	if len(fr.Canaries) == 0 {
+		return "no-return-path"
+	}
+	decls := fr.Decls.Text()
+	status := "contradictory"
+	var mu sync.Mutex
+	var wg sync.WaitGroup
+	sem := make(chan struct{}, opts.Workers)
+	done := false
+	for k, pc := range fr.Canaries {
+		mu.Lock()
+		d := done
+		mu.Unlock()
+		if d {
+			break
+		}
+		k, pc := k, pc
+		wg.Add(1)
+		sem <- struct{}{}
+		go func() {
+			defer wg.Done()
+			defer func() { <-sem }()
+			var b strings.Builder
+			b.WriteString(decls)
+			for _, t := range pc {
+				fmt.Fprintf(&b, "(assert %s)\n", t.S)
+			}
+			b.WriteString("(check-sat)\n")
+			tag := fmt.Sprintf("%s.canary%d", sanitize(fr.Key), k)
+			ls, _, _ := runSolver("z3-new", b.String(), 3000, 1, opts.WorkDir, tag)
+			files, _ := filepath.Glob(filepath.Join(opts.WorkDir, tag+".*"))
+			for _, f := range files {
+				os.Remove(f)
+			}
+			mu.Lock()
+			defer mu.Unlock()
+			if len(ls) > 0 && ls[0] == "sat" {
+				status = "consistent"
+				done = true
+			} else if (len(ls) == 0 || ls[0] != "unsat") && status != "consistent" {
+				status = "not-refuted"
+				done = true
+			}
+		}()
+	}
+	wg.Wait()
+	return status
 }
